@@ -181,7 +181,7 @@ def check_c13(io, time_budget=120):
         return (ok, (xpk + xsk).hex())
 
     def pwkp(d):
-        sk = M.argon2(_b(d["pw"]), _b(d["salt"]), d["t"], d["m"], 32, 2)
+        sk = M.argon2(_b(d["pw"]), _b(d["salt"]), d["t"], d["m"], 32, d.get("y", 2))
         pk = M.x25519_base(sk)
         return (d["pk"] == pk.hex() and d["sk"] == sk.hex(), (pk + sk).hex())
     return _run(io, {"box_seed": box_seed, "kx_seed": kx_seed, "sign_seed": sign_seed, "ed_to_curve": ed2x, "pw_keypair": pwkp}, time_budget, "C13")
